@@ -15,7 +15,7 @@ Extraction "../ocaml/model.ml"
   Fp.f_num_bits Fp.f_capacity Fp.f_S Fp.f_two_inv Fp.f_gen Fp.f_rou Fp.f_rou_inv Fp.f_delta
   Fp.to_repr Fp.from_repr Fp.fp_of_limbs Fp.powmod
   FpLimbs.ladd FpLimbs.lsub FpLimbs.lmul FpLimbs.lneg FpLimbs.ldouble FpLimbs.lsquare FpLimbs.linvert FpLimbs.lsqrt
-  FpLimbs.lpow_vartime FpLimbs.lfrom_repr FpLimbs.lto_repr FpLimbs.lto_canon FpLimbs.lfrom_u64 FpLimbs.lrandom_round FpLimbs.leqb FpLimbs.lis_odd
+  FpLimbs.lpow_vartime FpLimbs.lfrom_repr FpLimbs.lto_repr FpLimbs.lto_canon FpLimbs.lfrom_u64 FpLimbs.lrandom_round FpLimbs.leqb FpLimbs.lis_odd FpLimbs.lcmp
   FpLimbs.lone LimbGen.R2 LimbGen.TWO_INV LimbGen.GENERATOR LimbGen.ROOT_OF_UNITY LimbGen.ROOT_OF_UNITY_INV LimbGen.DELTA LimbGen.MODULUS_LIMBS
   Shamir.share_to_bytes Shamir.share_from_bytes Shamir.recover
   Adss.sharing_of Adss.load_bytes Adss.load_u32 Adss.store_bytes Adss.ashare_to_bytes Adss.ashare_from_bytes
